@@ -81,7 +81,9 @@ func (o *sessionTracker) RemoteLogin(rul common.RemoteUserLogin) error {
 	var found bool
 	var writeErr error
 	o.sessIDsToUsers.Iterate(func(asi string, u *user) bool {
-		if u.srcPID == rul.PID {
+		// A session that already has a login belongs to an earlier
+		// process with this PID; a new login must never replace it.
+		if u.srcPID == rul.PID && !u.hasRUL {
 			if debugLogger != nil {
 				debugLogger.With(
 					"auditSessionID", asi,
@@ -96,7 +98,15 @@ func (o *sessionTracker) RemoteLogin(rul common.RemoteUserLogin) error {
 			u.setRemoteUserLoginInfo(rul)
 
 			found = true
+			sessionEnded := u.hasCachedSessionEnd()
 			writeErr = u.writeAndClearCache(o.eventWriter)
+			if sessionEnded {
+				// The session ended before its login arrived. Release it
+				// as the AUDIT_CRED_DISP path does, so that a later login
+				// from a reused PID is not attached to it. The lock is
+				// already held by Iterate.
+				o.sessIDsToUsers.DeleteUnsafe(asi)
+			}
 			// stop iteration
 			return false
 		}
@@ -350,6 +360,18 @@ func (o *user) setRemoteUserLoginInfo(login common.RemoteUserLogin) {
 // hasRemoteUserLoginInfo checks if there is a remote user login present for the user.
 func (o *user) hasRemoteUserLoginInfo() bool {
 	return o.hasRUL
+}
+
+// hasCachedSessionEnd returns true if the cached events contain the
+// event that ends the audit session.
+func (o *user) hasCachedSessionEnd() bool {
+	for _, ae := range o.cached {
+		if ae.Type == auparse.AUDIT_CRED_DISP {
+			return true
+		}
+	}
+
+	return false
 }
 
 // toAuditEvent takes an array of coalesced events and returns and audit event
